@@ -6,6 +6,8 @@ ALL = ["C%02d" % i for i in range(1, 21)]
 BASE_OFF = "cd /repo && env -u ASCMHL_VERIF /venv/bin/python -m pytest -ra -q -p no:cacheprovider --timeout=900 --continue-on-collection-errors"
 T = "in-process CliRunner on tmpfs as accelerator, every alarm re-run in one fresh subprocess per command; CPython, hashlib, xxhash, lxml/libxml2 trusted; bounds and alphabets as listed in the evidence file"
 CHECKS = {
+ "C16": ("E2", "exploration", "exhaustive enumeration of the finite product zone x now x mtime x size on the real code under a TZ + virtual-clock seam",
+         "For 13 zones (thorough: every zone of the system tz database with a transition in the test year) the current time and the file time each range over mid-winter, mid-summer and one second before/after every transition; every combination is sealed with the real create and each recorded size, date (ISO-8601 grammar, true instant, offset in force at that instant per zoneinfo) and the UTC file-name time is checked.", "4 C16"),
  "C10": ("E2", "exploration", "bounded-exhaustive enumeration of model objects (all deviations from a default object in <=2-3 fields) and of all legal code points, on the real writer/reader pair",
          "Every model object that deviates from a default manifest in at most two (thorough: three) fields over per-field alphabets of awkward values, chain files over awkward folder names, and every XML-legal non-control code point as part of a path are written with the tool's writer and read back with the tool's reader and an independent lxml reader; manifests of real command sequences are cross-read as well.", "4 C10"),
  "C01": ("E2", "exploration", "bounded-exhaustive enumeration of the finite product lengths x contents x format sets x entry points on the real code",
